@@ -104,6 +104,23 @@ Theorem C04_generated_key_bootstrap_woKS : forall N, (0 < N)%nat -> inDomain (2 
 Proof. exact generated_key_bootstrap_woKS. Qed.
 Print Assumptions C04_generated_key_bootstrap_woKS.
 
+(* ... and WITH the key switch, under the pair (key-switching key, bootstrapping key) tfhe_createLweBootstrappingKey generates: recentred
+   key-switching noises at most eta_ks, Gaussian draws of the bootstrapping-key part at most eta *)
+Theorem C04_generated_keys_bootstrap : forall N, (0 < N)%nat -> inDomain (2 * Z.of_nat N) -> forall key k, wf_tkey N k key ->
+  Forall (Forall (fun x => x = 0 \/ x = 1)) key -> forall l B, valid_layout l B -> forall t bb, valid_ks t bb ->
+  forall eta eta_ks lk ds ks bk r mu x, 0 <= eta -> 0 <= eta_ks -> Forall (fun s => s = 0 \/ s = 1) lk -> length (fst x) = length lk ->
+  create_bootstrapping_key l B t bb lk key N ds = Some (ks, bk, r) ->
+  (forall gs r0, take_g (k * N * t * (Z.to_nat (pow2 bb) - 1)) ds = Some (gs, r0) -> forall nz, In nz (recentre gs) -> Z.abs (dtot32_dy nz) <= eta_ks) ->
+  (forall ks' r1, create_ks_key (tlwe_extract_key key) lk t bb ds = Some (ks', r1) -> bounded eta r1) ->
+  exists (res u : sample) e0 (e : nat -> nat -> Z -> Z), bootstrap l B k N bk ks t bb (length lk) mu x = Some res /\ length (fst res) = length lk /\
+    Z.abs e0 <= Z.of_nat (length lk) * beta N k l B eta /\ (forall i j h, Z.abs (e i j h) <= eta_ks) /\
+    eqm32 (lwe_phase lk res)
+          ((if rot_exponent N lk x <? Z.of_nat N then mu else w32 (- mu)) + e0
+           + zsum (k * N) (fun i => nth i (tlwe_extract_key key) 0 * (nth i (fst u) 0 - round_tb (Z.of_nat t) bb (nth i (fst u) 0)))
+           - zsum (k * N) (fun i => zsum t (ee bb e i (aibar (Z.of_nat t) bb (nth i (fst u) 0))))).
+Proof. exact generated_keys_bootstrap. Qed.
+Print Assumptions C04_generated_keys_bootstrap.
+
 Example C04_nonvacuous :
   rotated_testvect [10;20;30;40] 5 = Some [-20;-30;-40;10] /\ anti [10;20;30;40] 5 = -20 /\ anti [10;20;30;40] 3 = 40 /\
   anti [10;20;30;40] 4 = -10 /\ anti [10;20;30;40] 7 = -40 /\ anti [10;20;30;40] 0 = 10 /\
